@@ -292,7 +292,9 @@ func runConfig(t *testing.T, r *vrep.Report, tr *vrep.Report, cfg config, nClien
 				if writers[c.StartTS] && perTxn[c.StartTS] < 45 {
 					perTxn[c.StartTS]++
 					switch c.Cmd {
-					case tikvrpc.CmdPrewrite, tikvrpc.CmdCommit, tikvrpc.CmdBatchRollback, tikvrpc.CmdResolveLock, tikvrpc.CmdCheckTxnStatus, tikvrpc.CmdCheckSecondaryLocks, tikvrpc.CmdPessimisticLock:
+					case tikvrpc.CmdCheckTxnStatus:
+						perTxn[c.StartTS]-- // status checks of waiting readers would crowd out the owner's requests
+					case tikvrpc.CmdPrewrite, tikvrpc.CmdCommit, tikvrpc.CmdBatchRollback, tikvrpc.CmdResolveLock, tikvrpc.CmdCheckSecondaryLocks, tikvrpc.CmdPessimisticLock:
 						hist = append(hist, fmt.Sprintf("#%d..%d c%d %s %s err=%q regErr=%v :: %.260v => %.160v", c.Seq, c.RetSeq, c.Client, c.Cmd, c.Action, c.Err, c.RegionErr != nil, c.Req, c.Resp))
 					}
 				}
